@@ -22,7 +22,7 @@ func famCfIndex(k *mon.Case) {
 	fam := node.FamRegtest
 	g := chaingen.New(node.NewParams(fam), fam, r)
 	g.MaxTx = 5
-	s, err := sim.New(k, g, node.Config{UtxoCacheMaxSize: []uint64{0, 1 << 30}[r.Intn(2)], CfIndex: true})
+	s, err := sim.New(k, g, node.Config{UtxoCacheMaxSize: []uint64{0, 1 << 25}[r.Intn(2)], CfIndex: true})
 	if err != nil {
 		k.Failf("harness:open", "cannot open node: %v", err)
 		return
